@@ -15,7 +15,7 @@ From Coq Require Import List NArith ZArith Reals Floats Bool.
 From LW Require Import Base.Outcome Base.Hex Crypto.AES Crypto.AESAny Crypto.AESAnyProofs
   Crypto.KeyWrap Crypto.KeyWrapAny Crypto.KeyWrapAnyProofs
   Backend.F64 Backend.F64Sweep Backend.F64Proofs Backend.HexBytes Backend.KeyEnvelope Backend.EnvelopeProofs
-  Backend.KeyEnvelopeAny Backend.EnvelopeAnyProofs Backend.Iso8601 Backend.Iso8601Proofs.
+  Backend.KeyEnvelopeAny Backend.EnvelopeAnyProofs Backend.Iso8601 Backend.Iso8601Proofs Backend.Json Backend.JsonProofs Backend.Payload Backend.PayloadProofs Backend.PayloadFloat.
 Import ListNotations.
 
 (* ---------- Percentage ---------- *)
@@ -198,6 +198,68 @@ Example C17_iso8601_example :
   = [None; None; None; None; None; None; None; Some (946684800, 0)].
 Proof. vm_compute. repeat split; reflexivity. Qed.
 Open Scope N_scope.
+
+(* ---------- generic JSON as encoding/json prints and reads it ---------- *)
+(* a tree whose number texts are JSON numbers, whose strings and keys are valid UTF-8 and which nests at most
+   10000 deep (the limit of encoding/json) is read back from its printed text *)
+Theorem C17_json_parse_print : forall v,
+  jwf v = true -> (jdepth v <= max_depth)%nat -> json_parse (json_print v) = POk v.
+Proof. exact json_parse_print. Qed.
+Print Assumptions C17_json_parse_print.
+
+(* strings alone: every valid UTF-8 byte string, with what follows the closing quote left untouched *)
+Theorem C17_json_string_roundtrip : forall s rest,
+  utf8_valid s = true -> parse_str (esc_string s ++ 34 :: rest) = POk (s, rest).
+Proof. exact parse_print_string. Qed.
+Print Assumptions C17_json_string_roundtrip.
+
+(* the reader is total: its fuel (twice the length of the text plus one) is never used up, on any input *)
+Theorem C17_json_parse_total : forall text, json_parse text <> PFuel.
+Proof. exact json_parse_total. Qed.
+Print Assumptions C17_json_parse_total.
+
+Example C17_json_example :
+  jwf ex_tree = true /\ json_print ex_tree = ex_text /\ json_parse ex_text = POk ex_tree /\
+  json_print (JStr [97; 255; 98]) = [34; 97; 92; 117; 102; 102; 102; 100; 98; 34] /\
+  json_parse [34; 97; 92; 117; 102; 102; 102; 100; 98; 34] = POk (JStr [97; 239; 191; 189; 98]) /\
+  json_parse [91; 48; 49; 93] = PErr.
+Proof. vm_compute. repeat split; reflexivity. Qed.
+
+(* ---------- the struct layer of encoding/json: payload types as tables over one generic codec ---------- *)
+(* on document trees: for every type description whose struct keys are distinct (twf) and every value of the claimed
+   domain (has_type: valid UTF-8 strings, integers in range, timestamps RFC 3339 can carry, Frequency / Percentage
+   below 2^32, finite floats, ...), Unmarshal (Marshal x) is the normal form of x (an empty slice under omitempty
+   comes back nil).  Types without float fields need nothing else. *)
+Theorem C17_struct_tree_roundtrip : forall c t v,
+  float_free t = true -> twf t = true -> has_type t false v = true ->
+  of_json c t (to_json c t v) = Some (norm t false v).
+Proof. exact (fun c t v F => of_to_json c t v (or_introl F)). Qed.
+Print Assumptions C17_struct_tree_roundtrip.
+
+(* on bytes, through the printer and reader of the generic JSON model *)
+Theorem C17_struct_bytes_roundtrip : forall c t v,
+  float_free t = true -> twf t = true -> (tdepth t <= 1000)%nat -> has_type t false v = true ->
+  decode c t (encode c t v) = Some (norm t false v).
+Proof. exact (fun c t v F => decode_encode c t v (or_introl F)). Qed.
+Print Assumptions C17_struct_bytes_roundtrip.
+
+(* types with Frequency, Percentage or float64 fields: the decimal text of floats is not modelled; assumed: the text
+   strconv prints for a finite float is a JSON number that parses back to the float.  The float arithmetic of
+   Frequency / Percentage is the theorem C17_freq_exact / C17_pct_exact_u32 (hence the same axioms). *)
+Theorem C17_struct_bytes_roundtrip_floats : forall c t v,
+  (forall f, ffinite f = true -> is_number (ftext c f) = true /\ fparse c (ftext c f) = Some f) ->
+  twf t = true -> (tdepth t <= 1000)%nat -> has_type t false v = true ->
+  decode c t (encode c t v) = Some (norm t false v).
+Proof. exact decode_encode_floats. Qed.
+Print Assumptions C17_struct_bytes_roundtrip_floats.
+
+(* BasePayload, BasePayloadResult, Result, KeyEnvelope, VSExtension, JoinReqPayload, JoinAnsPayload (backend.go struct tags
+   as tables): no float fields, so unconditionally *)
+Theorem C17_payload_roundtrip_join : forall c t v,
+  In t [t_vsextension; t_result; t_keyenvelope; t_basepayload; t_basepayloadresult; t_joinreq; t_joinans] ->
+  has_type t false v = true -> decode c t (encode c t v) = Some (norm t false v).
+Proof. exact payload_roundtrip_2. Qed.
+Print Assumptions C17_payload_roundtrip_join.
 
 (* non-vacuity *)
 Example C17_example :
